@@ -1116,17 +1116,13 @@ V("BENIGN-new-field-class", "C01", "a new EmailField(StringField) with a chained
   new="class EmailField(StringField):\n    storage_type = str\n\n    def _validate(self, cfg: Config, value: str) -> str:\n        value = super()._validate(cfg, value)\n        if \"@\" not in value:\n            raise ValueError(\"value is not an e-mail address\")\n        return value\n\n\nclass LogLevelField(StringField):")
 V("BENIGN-set_value-early-return", "C06", "_set_value: non-Field branch written with early raise", CORE, expect="silent", check=["C06", "C01", "C12", "C15", "C02"],
   old="""        if isinstance(value, Config):
-            value._parent = self
-            value._key = key
-        elif isinstance(value, dict) and isinstance(field, (Schema, ConfigTypeField)):""",
+            expected = config_schema(field)""",
   new="""        if not isinstance(value, (Config, dict)):
             raise ValidationError(
                 self, field, "Unable to coerce %s to Config" % type(value).__name__
             )
         if isinstance(value, Config):
-            value._parent = self
-            value._key = key
-        elif isinstance(value, dict) and isinstance(field, (Schema, ConfigTypeField)):""")
+            expected = config_schema(field)""")
 V("BENIGN-plain-dict-data", "C01", "Config._data created as a plain dict", CORE, expect="silent", check=["C01", "C12", "C13"],
   old="        self._data: Dict[str, Any] = OrderedDict()", new="        self._data: Dict[str, Any] = {}")
 V("BENIGN-validate-walrus", "C11", "load_tree validation flag tested via local", CORE, expect="silent",
@@ -1539,7 +1535,39 @@ VP("C02-R4C-mut-table-int-before-bool", "C04", "scalar type table lists int befo
    '    SCALAR_TYPES = ((str, "str"), (bool, "bool"), (int, "int"), (float, "float"))', '    SCALAR_TYPES = ((str, "str"), (int, "int"), (bool, "bool"), (float, "float"))')
 VP("C07-R4D-mut-guarded-decrement-wrong-test", "C07", "guarded decrement skips the decrement while a context is open", "C07-R4D", ENC,
    "        if self.__refcount > 0:\n            self.__refcount -= 1", "        if self.__refcount > 1:\n            self.__refcount -= 1")
+VP("C06-R4C-mut-sibling-flag-not-none", "C06", "sibling flag `tree` is an empty tree for a configuration handed in: it is re-loaded before the list accepts it", "C06-R4C", "cincoconfig/fields/list_field.py",
+   "                raise ValueError(\"configuration was created from a different schema\")\n            tree = None", "                raise ValueError(\"configuration was created from a different schema\")\n            tree = {}")
 
 V("C05-strip-before-case-again", "C05", "D27 re-opened: strip before the case transform", STR,
   "        if self.transform_case:\n            value = value.lower() if self.transform_case == \"lower\" else value.upper()\n\n        if self.transform_strip:\n            if isinstance(self.transform_strip, str):\n                value = value.strip(self.transform_strip)\n            else:\n                value = value.strip()\n",
   "        if self.transform_strip:\n            if isinstance(self.transform_strip, str):\n                value = value.strip(self.transform_strip)\n            else:\n                value = value.strip()\n\n        if self.transform_case:\n            value = value.lower() if self.transform_case == \"lower\" else value.upper()\n")
+
+# D32: a second validator registration keeps the first
+SUPPORT_PY = "cincoconfig/support.py"
+V("C11-validator-replaced-again", "C11", "D32 re-opened: validator(field) stores the new function over the earlier one", SUPPORT_PY,
+  "            previous = field.validator\n            if not previous:\n                field.validator = func  # type: ignore\n            else:",
+  "            previous = field.validator\n            if previous is not func:\n                field.validator = func  # type: ignore\n            else:")
+V("C11-validator-chain-late-read", "C11", "the chained validator reads field.validator when it runs (finds itself), not the earlier validator", SUPPORT_PY,
+  "                    cfg, previous(cfg, value)  # type: ignore", "                    cfg, field.validator(cfg, value)  # type: ignore")
+V("C11-validator-chain-drops-new", "C11", "the chained validator runs only the earlier validator", SUPPORT_PY,
+  "                field.validator = lambda cfg, value: func(  # type: ignore\n                    cfg, previous(cfg, value)  # type: ignore\n                )",
+  "                field.validator = lambda cfg, value: previous(cfg, value)  # type: ignore")
+V("C11-validator-chain-named-def-ok", "C11", "refactoring: the chained validator is a named nested function, `previous is None` test", SUPPORT_PY,
+  "            if not previous:\n                field.validator = func  # type: ignore\n            else:\n                # a validator is already registered (an earlier decorator or the ``validator``\n                # option): keep it, each validator receives the value the one before it returned\n                field.validator = lambda cfg, value: func(  # type: ignore\n                    cfg, previous(cfg, value)  # type: ignore\n                )",
+  "            if previous is None:\n                field.validator = func  # type: ignore\n            else:\n                def chained(cfg, value, _first=previous):\n                    return func(cfg, _first(cfg, value))\n\n                field.validator = chained  # type: ignore",
+  expect="silent")
+
+# D33: a configuration handed in is adopted only when it was created from the receiving field's schema
+LIST_PY = "cincoconfig/fields/list_field.py"
+V("C01-foreign-config-adopted-again", "C01", "D33 re-opened: _set_value adopts a configuration of any schema", CORE,
+  "            if expected is not None and value._schema is not expected:", "            if expected is None and value._schema is not expected:")
+V("C01-foreign-config-own-schema-compared", "C01", "_set_value compares the handed-in configuration's schema with the receiving configuration's own", CORE,
+  "            if expected is not None and value._schema is not expected:", "            if expected is not None and value._schema is not self._schema:", expect="fire")
+V("C01-foreign-config-into-list-again", "C01", "D33 re-opened: ListProxy._validate adopts a configuration of any schema", LIST_PY,
+  "                if value._schema is not config_schema(self.item_field):\n                    raise ValueError(\"configuration was created from a different schema\")\n", "")
+V("C01-foreign-config-list-self-compare", "C01", "ListProxy._validate compares the configuration's schema with itself", LIST_PY,
+  "                if value._schema is not config_schema(self.item_field):", "                if value._schema is not config_schema(value._schema):")
+V("C01-foreign-config-or-form-ok", "C01", "refactoring: the schema test written as `expected is None or same`", CORE,
+  "            if expected is not None and value._schema is not expected:\n                # a configuration created from another schema holds values this field's schema\n                # never validated\n                raise ValidationError(\n                    self, field, \"configuration was created from a different schema\"\n                )\n            value._parent = self\n            value._key = key\n",
+  "            if not (expected is None or value._schema is expected):\n                raise ValidationError(\n                    self, field, \"configuration was created from a different schema\"\n                )\n            value._parent = self\n            value._key = key\n",
+  expect="silent")
